@@ -477,7 +477,7 @@ def main():
     (rt_ok, rt_err) = chk.translate_ok('recvtail')
     chk.obligation('translator:recvtail', rt_ok, rt_err)
 
-    count = 240 if chk.quick() else 30000
+    count = 240 if chk.quick() else 24000
     length = 8
     cases = [('directed', case) for case in directed_cases()]
     cases = [('corpus:' + name, case) for (name, case) in corpus_cases()] + cases
@@ -502,7 +502,7 @@ def main():
     model_err = ''
     try:
         terms = [B.coq_case(case)[0] for (_tag, case) in cases]
-        model = [B.canon_model(res) for res in chk.coq_eval('hist', ['Model.BpAgent'], terms, B.COQ_RUN, chunk=32)]
+        model = [B.canon_model(res) for res in chk.coq_eval('hist', ['Model.BpAgent'], terms, B.COQ_RUN, chunk=max(32, -(-len(terms) // 48)))]
     except CoqError as err:
         model_err = str(err)[:600]
 
